@@ -146,6 +146,16 @@ example : (Contiguous.dec 8 { cdf := [0, 100, 200, 0] } 255) = .ok (2, 200, 56) 
   simp [Contiguous.dec, cdfQuantile, bsearch, bsearchLoop, csub, wsub]
 example : (Contiguous.enc 8 { cdf := [0, 100, 200, 0] } 2) = .ok (some (200, 56)) := by rfl
 
+/-- the hypotheses of `C03_noncontiguous`, `C03_lookup`, `C03_nclookup`, `C03_uniform` are
+    satisfiable: -/
+example : (NcEnc.fromSymbolsAndNonzeroFixedPoint 8 8 [7, 9, 4] [100, 100] true).isSome = true := by
+  decide
+example : ∃ m, NcDec.fromSymbolsAndNonzeroFixedPoint 8 8 [7, 9, 4] [100, 100] true = .ok (some m) :=
+  ⟨_, rfl⟩
+example : ∃ m, Lookup.fromNonzeroFixedPoint 8 2 [1, 3] false = some m := ⟨_, rfl⟩
+example : ∃ m, NcLookup.fromSymbolsAndNonzeroFixedPoint 8 2 [7, 9] [1] true = .ok (some m) := ⟨_, rfl⟩
+example : ValidExt 3 (uniExt 3 3) := uniExt_valid (by decide) (by decide)
+
 #print axioms C03_contiguous_of_validCdf
 #print axioms C03_contiguous
 #print axioms C03_noncontiguous
